@@ -10,7 +10,7 @@ import (
 
 func init() { register("C01", runC01) }
 
-const codecHeader = "From Coq Require Import List String ZArith.\nImport ListNotations.\nOpen Scope string_scope.\nFrom Lime Require Import Base.Res Base.Json Codec.Types "
+const codecHeader = "From Coq Require Import List String ZArith.\nImport ListNotations.\nOpen Scope string_scope.\nFrom Lime Require Import Base.Res Base.Json Codec.Types Codec.Registry "
 
 type c01Case struct {
 	Form   string  `json:"form"` // env node ident mt uri
@@ -160,7 +160,7 @@ func allStrings(alphabet []byte, maxLen int, f func(string)) {
 func runC01(env *Env) error {
 	env.Header = codecHeader + "Corr.Codec Corr.C01."
 	env.ShardSize = 300
-	env.Rule = "envelopes: 5 kinds x every subset of the optional parts (exhaustive over the mask) with PRNG values, documents nested to depth 4 (quick) / 7 (thorough), one in five made ill-formed in one way; text forms: every string over {a,b,@,/,+,%,space} up to the length bound through ParseNode/ParseIdentity/ParseMediaType/ParseLimeURI and String, plus structured values with separator-bearing parts. Non-trivial: an envelope with >= 3 optional parts or a nested document, or a text form containing a separator; distinct by the printed case."
+	env.Rule = "envelopes: 5 kinds x every subset of the optional parts (exhaustive over the mask) with PRNG values, documents nested to depth 4 (quick) / 7 (thorough), one in five made ill-formed in one way; text forms: every string over {a,b,@,/,+,%,space} up to the length bound through ParseNode/ParseIdentity/ParseMediaType/ParseLimeURI and String, plus structured values with separator-bearing parts; the document registry: registrations and decodes of fresh media types in every order (decode before registration included). Non-trivial: an envelope with >= 3 optional parts or a nested document, or a text form containing a separator; distinct by the printed case."
 	g := &gen{rng: env.Rng}
 	add := func(c *c01Case) {
 		env.Add(c.term, c)
@@ -185,9 +185,15 @@ func runC01(env *Env) error {
 			add(mtCase(rc.Src, rc.MT))
 		case "uri":
 			add(uriCase(*rc.Src))
+		case "registry":
+			var rr registryCase
+			_, _ = env.ReplayDesc(&rr)
+			c := runRegistry(rr.Ops)
+			env.Add(c.term, c)
 		}
 		return nil
 	}
+	addRegistryCases(env)
 
 	ws, err := newWSPath()
 	if err != nil {
